@@ -452,6 +452,25 @@ pub enum Glob {
     Basename(String),
     /// `!*.ext`
     Ext(String),
+    /// `!/anchored/path` of the n-th path (in sorted order) that exists in any of the snapshots;
+    /// resolved against the repository's content before the rewrite
+    Pick(u16),
+    /// like `Pick`, but among the paths that exist in only one of the last two snapshots (the old
+    /// and new location of a moved directory); falls back to `Pick`
+    PickMoved(u16),
+}
+
+impl Glob {
+    fn resolve(&self, paths: &[Vec<String>], moved: &[Vec<String>]) -> Glob {
+        match self {
+            Glob::PickMoved(sel) if !moved.is_empty() => Glob::Anchored(moved[pick_idx(*sel, moved.len())].clone()),
+            Glob::Pick(sel) | Glob::PickMoved(sel) if !paths.is_empty() => {
+                Glob::Anchored(paths[pick_idx(*sel, paths.len())].clone())
+            }
+            Glob::Pick(_) | Glob::PickMoved(_) => Glob::Anchored(vec!["s".to_string(), "zz".to_string()]),
+            g => g.clone(),
+        }
+    }
 }
 
 impl Glob {
@@ -460,6 +479,7 @@ impl Glob {
             Glob::Anchored(p) => format!("!/{}", p.join("/")),
             Glob::Basename(n) => format!("!{n}"),
             Glob::Ext(e) => format!("!*.{e}"),
+            Glob::Pick(_) | Glob::PickMoved(_) => unreachable!("resolved before use"),
         }
     }
     fn matches(&self, comps: &[&str]) -> bool {
@@ -467,6 +487,7 @@ impl Glob {
             Glob::Anchored(p) => comps.len() == p.len() && comps.iter().zip(p.iter()).all(|(a, b)| a == b),
             Glob::Basename(n) => comps.last() == Some(&n.as_str()),
             Glob::Ext(e) => comps.last().is_some_and(|l| l.ends_with(&format!(".{e}"))),
+            Glob::Pick(_) | Glob::PickMoved(_) => unreachable!("resolved before use"),
         }
     }
 }
@@ -478,6 +499,53 @@ pub struct RewriteCase {
     pub rounds: Vec<Vec<Edit>>,
     pub globs: Vec<Glob>,
     pub forget: bool,
+    /// before the last backup, move a non-empty directory (selected by the first number) into
+    /// another directory (second number) under the n-th plain name: the same tree then occurs at
+    /// two different paths among the snapshots rewritten together
+    #[serde(default)]
+    pub relocate: Option<(u16, u16, u8)>,
+}
+
+const PLAIN: [&str; 6] = ["a", "b", "c", "d", "ab", "cd"];
+
+fn plain_name(old: &[u8]) -> Vec<u8> {
+    let h = old.iter().fold(0u32, |a, b| a.wrapping_mul(31).wrapping_add(u32::from(*b)));
+    let base = PLAIN[(h % 6) as usize];
+    let ext = ["", "", ".txt", ".log", ".tmp"][((h / 7) % 5) as usize];
+    format!("{base}{ext}").into_bytes()
+}
+
+fn plain_node(n: &mut MNode, top: bool) {
+    if !top {
+        n.name = plain_name(&n.name);
+    }
+    n.links = 1;
+    n.device = 0;
+    if let Some(ch) = n.children_mut() {
+        for c in ch {
+            plain_node(c, false);
+        }
+    }
+}
+
+/// the same edit with every name it introduces mapped into the matcher's name domain
+fn plain_edit(e: Edit) -> Edit {
+    match e {
+        Edit::Duplicate(a, b, n) => Edit::Duplicate(a, b, plain_name(&n)),
+        Edit::Move(a, b, n) => Edit::Move(a, b, plain_name(&n)),
+        Edit::Rename(a, n) => Edit::Rename(a, plain_name(&n)),
+        Edit::Add(d, mut n) => {
+            plain_node(&mut n, false);
+            n.normalise();
+            Edit::Add(d, n)
+        }
+        Edit::Retype(d, mut n) => {
+            plain_node(&mut n, false);
+            n.normalise();
+            Edit::Retype(d, n)
+        }
+        e => e,
+    }
 }
 
 /// trees with plain names: [a-d]{1,2} optionally followed by .txt/.log/.tmp
@@ -524,22 +592,25 @@ fn rewrite_strategy(_ctx: &Ctx) -> BoxedStrategy<RewriteCase> {
             p.file_cap = 60_000;
             let name = || prop::sample::select(vec!["a", "b", "c", "d", "ab", "cd", "a.txt", "b.log", "c.tmp", "zz"]).prop_map(str::to_string);
             let glob = prop_oneof![
-                3 => prop::collection::vec(name(), 0..3).prop_map(|mut v| {
+                2 => prop::collection::vec(name(), 0..3).prop_map(|mut v| {
                     v.insert(0, "s".to_string());
                     Glob::Anchored(v)
                 }),
+                3 => any::<u16>().prop_map(Glob::Pick),
+                2 => any::<u16>().prop_map(Glob::PickMoved),
                 2 => name().prop_map(Glob::Basename),
                 2 => prop::sample::select(vec!["txt", "log", "tmp", "none"]).prop_map(|e| Glob::Ext(e.to_string())),
             ];
             (
                 Just(cfg),
                 simple_tree(p),
-                prop::collection::vec(prop::collection::vec(edit(p), 0..3), 0..2),
+                prop::collection::vec(prop::collection::vec(edit(p).prop_map(plain_edit), 0..3), 0..3),
                 prop::collection::vec(glob, 0..4),
                 any::<bool>(),
+                prop::option::weighted(0.4, (any::<u16>(), any::<u16>(), 0u8..6)),
             )
         })
-        .prop_map(|(cfg, tree, rounds, globs, forget)| RewriteCase { cfg, tree, rounds, globs, forget })
+        .prop_map(|(cfg, tree, rounds, globs, forget, relocate)| RewriteCase { cfg, tree, rounds, globs, forget, relocate })
         .boxed()
 }
 
@@ -599,6 +670,33 @@ fn run_rewrite(c: &RewriteCase, _ctx: &Ctx) -> Outcome {
             fail!("building the repository: {e}");
         }
     }
+    let mut relocated = false;
+    if let Some((from, to, name)) = c.relocate {
+        let mut t = w.tree.clone();
+        let movable: Vec<Vec<usize>> = crate::r#gen::paths_where(&t, &|n| n.is_dir() && !n.children().is_empty())
+            .into_iter()
+            .filter(|p| !p.is_empty())
+            .collect();
+        if !movable.is_empty() {
+            let sp = movable[pick_idx(from, movable.len())].clone();
+            let (parent, idx) = (sp[..sp.len() - 1].to_vec(), sp[sp.len() - 1]);
+            let mut node = crate::r#gen::node_at_mut(&mut t, &parent).children_mut().unwrap().remove(idx);
+            // destinations: directories outside the moved subtree, other than its old parent
+            let dests: Vec<Vec<usize>> = crate::r#gen::paths_where(&t, &|n| n.is_dir());
+            let dp = dests[pick_idx(to, dests.len())].clone();
+            node.name = PLAIN[usize::from(name) % PLAIN.len()].as_bytes().to_vec();
+            let dest = crate::r#gen::node_at_mut(&mut t, &dp);
+            if !dest.children().iter().any(|c| c.name == node.name) {
+                dest.children_mut().unwrap().push(node);
+                t.normalise();
+                w.tree = t;
+                if let Err(e) = w.step(&HOp::Backup { edits: vec![], parent: false }) {
+                    fail!("building the repository: {e}");
+                }
+                relocated = true;
+            }
+        }
+    }
     // edits may introduce arbitrary names again; the matcher is only defined for plain names
     let plain = w.live.iter().all(|l| {
         l.model
@@ -609,8 +707,30 @@ fn run_rewrite(c: &RewriteCase, _ctx: &Ctx) -> Outcome {
         return out.skip("names_outside_matcher_domain");
     }
     let originals: Vec<SnapshotFile> = w.live.iter().map(|l| l.snap.clone()).collect();
+    // anchored excludes picked from the paths that exist in some snapshot
+    let paths: Vec<Vec<String>> = {
+        let mut all: BTreeSet<Vec<u8>> = BTreeSet::new();
+        for l in &w.live {
+            all.extend(l.model.keys().cloned());
+        }
+        all.iter()
+            .map(|k| String::from_utf8_lossy(k).split('/').map(str::to_string).collect::<Vec<_>>())
+            .filter(|p: &Vec<String>| p.len() > 1)
+            .collect()
+    };
+    let moved: Vec<Vec<String>> = if relocated && w.live.len() >= 2 {
+        let (a, b) = (&w.live[w.live.len() - 2].model, &w.live[w.live.len() - 1].model);
+        a.keys()
+            .filter(|k| !b.contains_key(*k))
+            .chain(b.keys().filter(|k| !a.contains_key(*k)))
+            .map(|k| String::from_utf8_lossy(k).split('/').map(str::to_string).collect::<Vec<_>>())
+            .collect()
+    } else {
+        Vec::new()
+    };
+    let globs: Vec<Glob> = c.globs.iter().map(|g| g.resolve(&paths, &moved)).collect();
     let mut tree_opts = RewriteTreesOptions::default();
-    tree_opts.excludes.globs = c.globs.iter().map(Glob::pattern).collect();
+    tree_opts.excludes.globs = globs.iter().map(Glob::pattern).collect();
     let opts = RewriteOptions::default().forget(c.forget);
     let written = match cmds::rewrite(&w.storage, &c.cfg, originals.clone(), &opts, &tree_opts) {
         Ok(s) => s,
@@ -628,7 +748,7 @@ fn run_rewrite(c: &RewriteCase, _ctx: &Ctx) -> Outcome {
     let mut removed_total = 0;
     let mut nonleaf_any = false;
     for l in &w.live {
-        let (want, removed, nonleaf) = filter_model(&l.model, &c.globs);
+        let (want, removed, nonleaf) = filter_model(&l.model, &globs);
         removed_total += removed;
         nonleaf_any |= nonleaf;
         let still_there = all.iter().find(|s| s.id == l.snap.id);
@@ -672,6 +792,12 @@ fn run_rewrite(c: &RewriteCase, _ctx: &Ctx) -> Outcome {
     out.nontrivial = removed_total > 0 && nonleaf_any;
     out.class_if(removed_total > 0, "something_excluded")
         .class_if(nonleaf_any, "non_leaf_removed")
+        .class_if(relocated, "same_tree_at_two_paths")
+        .class_if(relocated && removed_total > 0, "same_tree_at_two_paths_and_excluded")
+        .class_if(
+            globs.iter().any(|g| matches!(g, Glob::Anchored(p) if moved.contains(p))),
+            "exclude_anchored_inside_moved_directory",
+        )
         .class_if(c.forget, "forget")
 }
 
@@ -933,7 +1059,7 @@ pub fn spec() -> PropSpec {
     PropSpec {
         id: "C12",
         level: "exploration",
-        rule: "four proptest generators. copy: source repository of 1–3 snapshots sharing blobs (optionally repacked by a prune) x destination configuration with another key/version/compression/pack size that is empty, already holds a backup of one of the states, or an earlier copy; any subset of snapshots. merge: 2–4 snapshots that are edit-script variants of one tree (type changes, touches, adds/removes) x comparator (mtime, mtime-then-inode, size). rewrite: plain-name trees x 0–3 excludes of the forms !/anchored/path, !basename, !*.ext x forget. repair: 1–3 snapshots x {undamaged, one data pack removed + repair index, one index entry dropped} x delete. Non-trivial: copy into a non-empty destination or ≥2 snapshots; merge with a name carried by different entry types; rewrite removing a non-empty directory; damage that hits a file of a live snapshot. Distinct by hash of the case.",
+        rule: "four proptest generators. copy: source repository of 1–3 snapshots sharing blobs (optionally repacked by a prune) x destination configuration with another key/version/compression/pack size that is empty, already holds a backup of one of the states, or an earlier copy; any subset of snapshots. merge: 2–4 snapshots that are edit-script variants of one tree (type changes, touches, adds/removes) x comparator (mtime, mtime-then-inode, size). rewrite: 1–4 snapshots of plain-name trees (edit scripts with plain names between them; optionally a non-empty directory moved so that one tree id occurs at two paths) x 0–3 excludes of the forms !/anchored/path (fixed or picked from the existing paths), !basename, !*.ext x forget. repair: 1–3 snapshots x {undamaged, one data pack removed + repair index, one index entry dropped} x delete. Non-trivial: copy into a non-empty destination or ≥2 snapshots; merge with a name carried by different entry types; rewrite removing a non-empty directory; damage that hits a file of a live snapshot. Distinct by hash of the case.",
         assumptions: vec![
             "merge ties: any candidate that is maximal under the comparator is accepted (the library's choice among equal elements depends on heap order)",
             "rewrite is judged only for names of [A-Za-z0-9.] and the three exclude forms whose meaning is unambiguous",
@@ -958,7 +1084,7 @@ pub fn spec() -> PropSpec {
             }),
             Box::new(Sub {
                 name: "rewrite",
-                cases_quick: 150,
+                cases_quick: 300,
                 cases_thorough: 5000,
                 max_shrink_iters: 200,
                 strategy: rewrite_strategy,
